@@ -477,6 +477,7 @@ def replay(pid, case):
     # re-run the same history and the same queries
     B = Backends(place, tuple(run_['crs']), 'replay%d' % os.getpid(), common.scratch(), linked=run_.get('imlinked') or None)
     new = dict(run_, events=[])
+    new.setdefault('imlinked', [])          # replays recorded before linked edges entered the map histories
     try:
         with contextlib.redirect_stdout(io.StringIO()):
             for ev0, ev in zip(run_['events'], evs):
